@@ -1,7 +1,7 @@
 SPECIFICATION Spec
 CONSTANTS
   Titles = {"absent", "short"}
-  Years = {"absent", "text2008", "bin2008", "textempty", "textabc", "bin3", "bin0", "textutf", "textbad", "bin1", "bin5", "textmax", "textover", "text65536", "text007", "binmax", "bindigits", "int0", "int4"}
+  Years = {"absent", "text2008", "bin2008", "textempty", "textabc", "bin3", "bin0", "textutf", "textbad", "bin1", "bin5", "textmax", "textover", "text65536", "text007", "binmax", "bindigits", "int0", "int4", "binzero"}
   Posters = {"absent", "big"}
   Summaries = {"absent", "utf8"}
   Unknowns = {"none", "between", "tiny", "named", "kids"}
